@@ -29,7 +29,7 @@ RULE = ("exact stream: dyadic coordinates of shapes (3,), (n,3), (m,n,3) incl. b
         "displacement/index_displacement/distance (ndarrays and AtomArray/AtomArrayStack objects carrying their own box, with and without an explicit box)/coord_to_fraction/fraction_to_coord/move_inside_box/"
         "remove_pbc_from_coord/remove_pbc/repeat_box(_coord)/is_orthogonal/box_volume/centroid/90-degree unit cells, compared as exact "
         "rationals with the Lean model; float stream: random float32/float64 geometry judged by the oracle "
-        "(textbook formulae, rigid-motion invariance, lattice enumeration; periodic distance/angle/dihedral with every consecutive atom pair split across a box face; properness of every transform.py helper incl. (nearly) antiparallel align_vectors). non-trivial = at least two distinct "
+        "(textbook formulae, rigid-motion invariance, lattice enumeration; periodic distance/angle/dihedral with every consecutive atom pair split across a box face; properness of every transform.py helper incl. (nearly) antiparallel align_vectors and rotation axes of every length; unit cells of rotated / permuted / mirrored boxes; strongly skewed cells with molecules wrapped by mixed lattice vectors; histories with one box array changed in place + purity). non-trivial = at least two distinct "
         "coordinates and (box given => some coordinate pair crosses a box face) or an error branch; "
         "distinct = different (kind, ops / float payload)")
 TRUSTED = ["numpy broadcasting, matmul, linalg.inv/det, fancy indexing, cumsum modelled by their documented semantics",
@@ -244,6 +244,28 @@ def extract_constants():
     out["distanceCalls"] = disp_calls("distance")
     out["angleCalls"] = disp_calls("angle")
     out["dihedralCalls"] = disp_calls("dihedral")
+    # --- unitcell_from_vectors: the three angles must be arccos(dot(u, v) / (|u| |v|)) of two box vectors (rows)
+    f = _func(bt, "unitcell_from_vectors")
+    rows = {}
+    for n in ast.walk(f):
+        if isinstance(n, ast.Assign) and isinstance(n.targets[0], ast.Name) and isinstance(n.value, ast.Subscript) \
+                and isinstance(n.value.value, ast.Name) and n.value.value.id == "box" and isinstance(n.value.slice, ast.Constant):
+            rows[n.targets[0].id] = n.value.slice.value
+    dots = {}
+    for n in ast.walk(f):
+        if isinstance(n, ast.Assign) and isinstance(n.targets[0], ast.Name) and n.targets[0].id in ("alpha", "beta", "gamma"):
+            pair = (9, 9)          # not a dot product of two box vectors
+            val = n.value
+            if isinstance(val, ast.Call) and getattr(val.func, "attr", "") == "arccos" and val.args and isinstance(val.args[0], ast.BinOp) \
+                    and isinstance(val.args[0].op, ast.Div):
+                num = val.args[0].left
+                if isinstance(num, ast.Call) and getattr(num.func, "attr", getattr(num.func, "id", "")) in ("dot", "vector_dot") and len(num.args) == 2 \
+                        and all(isinstance(a_, ast.Name) and a_.id in rows for a_ in num.args):
+                    pair = tuple(sorted(rows[a_.id] for a_ in num.args))
+            dots[n.targets[0].id] = pair
+    if sorted(dots) != ["alpha", "beta", "gamma"]:
+        raise ValueError("unitcell_from_vectors: alpha / beta / gamma assignments not found")
+    out["unitcellAngleDots"] = [dots["alpha"], dots["beta"], dots["gamma"]]
     # --- vectors_from_unitcell: is the zeroing tolerance scaled by the SUM of the three lengths?
     f = _func(bt, "vectors_from_unitcell")
     tols = [n for n in ast.walk(f) if isinstance(n, ast.Assign) and len(n.targets) == 1
@@ -291,6 +313,8 @@ def gen_lean():
         "def distanceCalls : List (Nat × Nat × Bool) := [" + ", ".join(f"({a}, {b}, {'true' if p_ else 'false'})" for a, b, p_ in k["distanceCalls"]) + "]",
         "def angleCalls : List (Nat × Nat × Bool) := [" + ", ".join(f"({a}, {b}, {'true' if p_ else 'false'})" for a, b, p_ in k["angleCalls"]) + "]",
         "def dihedralCalls : List (Nat × Nat × Bool) := [" + ", ".join(f"({a}, {b}, {'true' if p_ else 'false'})" for a, b, p_ in k["dihedralCalls"]) + "]",
+        "/-- `unitcell_from_vectors`: rows (u, v) whose dot product gives alpha, beta, gamma ((9, 9) = not a dot product of two box vectors) -/",
+        "def unitcellAngleDots : List (Nat × Nat) := [" + ", ".join(f"({a}, {b})" for a, b in k["unitcellAngleDots"]) + "]",
         "/-- the round-off clean-up of `vectors_from_unitcell` compares with a tolerance built from the SUM of the lengths -/",
         f"def unitcellTolUsesSum : Bool := {'true' if k['unitcellTolUsesSum'] else 'false'}",
         "end BiotiteModel.Gen.C15", ""]
@@ -624,7 +648,7 @@ def _walk(rng, n, box):
 
 def cases(rng, tier):
     n_exact = 600 if tier == "quick" else 6000
-    n_float = 900 if tier == "quick" else 12000
+    n_float = 2400 if tier == "quick" else 16000
     for _ in range(n_exact):
         yield gen_exact(rng)
     for _ in range(n_float):
@@ -816,12 +840,14 @@ def _float_box(rng):
 
 
 def _skewed_box(rng):
-    """strongly skewed (non-reduced) triclinic cell: at least one angle in 28..55 or 125..150 degrees, heights >= 5"""
+    """strongly skewed (non-reduced) triclinic cell: at least one angle in 18..55 or 125..160 degrees, heights >= 5"""
     for _ in range(400):
-        la, lb, lc = (rng.uniform(10, 40) for _ in range(3))
+        la, lb, lc = (rng.uniform(12, 40) for _ in range(3))
+        if rng.random() < 0.6:
+            la = lb = lc = rng.uniform(12, 40)       # equal lengths: the short lattice vectors are the mixed ones (a-b, a+b, ...)
         angs = [rng.uniform(60, 120) for _ in range(3)]
         for i in rng.sample(range(3), rng.choice([1, 1, 2, 3])):
-            angs[i] = rng.choice([rng.uniform(28, 55), rng.uniform(125, 150)])
+            angs[i] = rng.choice([rng.uniform(18, 55), rng.uniform(125, 160), rng.uniform(18, 32), rng.uniform(148, 160)])
         al, be, ga = (math.radians(x) for x in angs)
         cx = lc * math.cos(be)
         cy = lc * (math.cos(al) - math.cos(be) * math.cos(ga)) / math.sin(ga)
@@ -855,6 +881,8 @@ def gen_float(rng):
     r = rng.random()
     dt = rng.choice(["f32", "f32", "f64"])
     seed = rng.getrandbits(48)
+    if r < 0.035:
+        return _gen_seq(rng, seed)
     if r < 0.07:
         return _gen_pmeasure(rng, seed)
     if r < 0.13:
@@ -938,6 +966,11 @@ def gen_float(rng):
             # the tail of the array is wrapped by ONE (mostly mixed) lattice vector, the head stays
             combo = rng.choice([[-1, 1, 0], [1, -1, 0], [1, 1, -1], [-1, 0, 1], [0, 1, -1], [1, 1, 0], [-1, -1, 1],
                                 [rng.randint(-1, 1) for _ in range(3)]])
+            if rng.random() < 0.6:
+                # the SHORTEST mixed lattice vector of this box (in a skewed cell shorter than the box vectors themselves)
+                mixed = [[i_, j_, k_] for i_ in (-1, 0, 1) for j_ in (-1, 0, 1) for k_ in (-1, 0, 1) if (i_ != 0) + (j_ != 0) + (k_ != 0) >= 2]
+                combo = min(mixed, key=lambda c_: sum(sum(c_[r_] * box[r_][t] for r_ in range(3)) ** 2 for t in range(3)))
+                combo = [x * rng.choice([1, -1]) for x in combo] if rng.random() < 0.5 else combo
             cut = rng.randrange(n) if n > 1 else 0
             shift = [[0, 0, 0] if j < cut else combo for j in range(n)]
         mols.append({"coords": [[coords[j][k] + centre[k] for k in range(3)] for j in order],
@@ -1006,9 +1039,24 @@ def _gen_pmeasure(rng, seed):
             "rewrap_atom": rng.randrange(4), "rewrap_shift": shift(), "seed": seed}
 
 
+def _gen_seq(rng, seed):
+    """a history: box-dependent functions called with ONE box array object that is changed in place between the calls"""
+    kind, box = _float_box(rng)
+    n = rng.choice([2, 4, 7])
+    coords, bonds = _molecule(rng, n)
+    centre = [sum(rng.uniform(-1, 2) * box[r_][i] for r_ in range(3)) for i in range(3)]
+    return {"kind": "f-seq", "boxkind": kind, "box": box, "dt": rng.choice(["f32", "f64"]),
+            "coord": [[c[k] + centre[k] for k in range(3)] for c in coords], "bonds": bonds,
+            "fn": rng.choice(["coord_to_fraction", "fraction_to_coord", "move_inside_box", "displacement", "distance",
+                              "index_distance", "index_dihedral", "remove_pbc", "remove_pbc_from_coord", "repeat_box_coord"]),
+            "mutations": [rng.choice(["scale", "scale", "swap", "skew", "negate-row"]) for _ in range(rng.choice([1, 2]))],
+            "scale": rng.choice([0.5, 1.1, 2.0, 3.0]), "seed": seed}
+
+
 def _gen_transform(rng, seed):
     """the helpers of transform.py the rigid-motion clause relies on, incl. (nearly) antiparallel align_vectors inputs"""
-    motion = rng.choice(["rotate", "rotate_centered", "rotate_about_axis", "translate", "align_vectors", "align_vectors", "align_vectors"])
+    motion = rng.choice(["rotate", "rotate_centered", "rotate_about_axis", "rotate_about_axis", "rotate_about_axis", "translate",
+                         "align_vectors", "align_vectors", "align_vectors"])
     case = {"kind": "f-transform", "motion": motion, "seed": seed, "dt": rng.choice(["f32", "f64"]),
             "params": [rng.uniform(-math.pi, math.pi) for _ in range(9)],
             "points": [[_fl(rng, 20) for _ in range(3)] for _ in range(6)], "positions": rng.random() < 0.5}
@@ -1181,7 +1229,7 @@ def oracle(case):
         warnings.simplefilter("ignore")
         k = case.get("kind", "")
         if k.startswith("f-"):
-            return {"f-geom": _o_geom, "f-index": _o_index, "f-pmeasure": _o_pmeasure, "f-transform": _o_transform, "f-pbc": _o_pbc, "f-move": _o_move, "f-unitcell": _o_unitcell, "f-rpbc": _o_rpbc}[k](case)
+            return {"f-geom": _o_geom, "f-seq": _o_seq, "f-index": _o_index, "f-pmeasure": _o_pmeasure, "f-transform": _o_transform, "f-pbc": _o_pbc, "f-move": _o_move, "f-unitcell": _o_unitcell, "f-rpbc": _o_rpbc}[k](case)
         return _o_exact(case)
 
 
@@ -1552,6 +1600,104 @@ def _o_index(case):
     return v
 
 
+def _o_seq(case):
+    """Functions of (coordinates, box) must be PURE: the result depends on the VALUES of the arguments only.
+    The same box array object is changed in place between calls (scaled, vectors swapped, skewed) and every result
+    must be bit-identical to the one obtained with fresh copies; arguments stay untouched, repeated calls agree,
+    results do not alias the inputs."""
+    import numpy as np
+
+    import biotite.structure as struc
+    v = []
+    dt = DT[case["dt"]]
+    fn = case["fn"]
+    c0 = np.array(case["coord"], dtype=dt)
+    n = len(c0)
+    idx2 = np.array([[i, (i + 1) % n] for i in range(n)])
+    idx4 = np.array([[i % n, (i + 1) % n, (i + 2) % n, (i + 3) % n] for i in range(n)]) if n >= 4 else None
+    if fn == "index_dihedral" and idx4 is None:
+        fn = "index_distance"
+
+    def call(coord, box):
+        if fn == "coord_to_fraction":
+            return struc.coord_to_fraction(coord, box)
+        if fn == "fraction_to_coord":
+            return struc.fraction_to_coord(coord * 0.01, box)
+        if fn == "move_inside_box":
+            return struc.move_inside_box(coord, box)
+        if fn == "displacement":
+            return struc.displacement(coord[:-1], coord[1:], box)
+        if fn == "distance":
+            return struc.distance(coord[0], coord[1:], box)
+        if fn == "index_distance":
+            return struc.index_distance(coord, idx2, periodic=True, box=box)
+        if fn == "index_dihedral":
+            return struc.index_dihedral(coord, idx4, periodic=True, box=box)
+        if fn == "remove_pbc_from_coord":
+            return struc.remove_pbc_from_coord(coord, box)
+        if fn == "repeat_box_coord":
+            return struc.repeat_box_coord(coord, box)[0]
+        if persistent and box is persistent[0].box:
+            atoms = persistent[0]           # the SAME AtomArray, whose box attribute is changed in place (`atoms.box *= s`)
+            atoms.coord = coord
+        else:
+            atoms = make_atoms(coord, box)
+        return struc.remove_pbc(atoms).coord
+
+    def make_atoms(coord, box):
+        atoms = struc.AtomArray(n)
+        atoms.coord = coord
+        atoms.box = box
+        atoms.bonds = struc.BondList(n, np.array([[a_, b_, 1] for a_, b_ in case["bonds"]], dtype=np.uint32).reshape(-1, 3))
+        return atoms
+
+    def mutate(box, how):
+        if how == "scale":
+            box *= case["scale"]
+        elif how == "swap":
+            box[[0, 1]] = box[[1, 0]]
+        elif how == "skew":
+            box[2] += 0.25 * box[0]
+        else:
+            box[1] = -box[1]
+
+    persistent = []
+    box = np.array(case["box"], dtype=dt)           # THE box object of this history
+    if fn == "remove_pbc":
+        persistent.append(make_atoms(c0.copy(), box))
+        box = persistent[0].box                     # the array object stored in the AtomArray
+    history = ["initial"] + list(case["mutations"])
+    # first pass: ONLY calls with the one box object (any call with another box in between would hide a stale cache)
+    seen = []
+    for step, how in enumerate(history):
+        if step:
+            mutate(box, how)
+        coord = c0.copy()
+        cb, bb = coord.copy(), box.copy()
+        with np.errstate(all="ignore"):
+            got = np.asarray(call(coord, box))
+        if not (np.array_equal(coord, cb) and np.array_equal(box, bb)):
+            return [(f"C15/{fn}/modifies-its-arguments", f"{case['boxkind']} box, step {step} ({how})")]
+        if np.shares_memory(got, coord) or np.shares_memory(got, box):
+            return [(f"C15/{fn}/result-aliases-an-argument", f"{case['boxkind']} box, step {step} ({how})")]
+        with np.errstate(all="ignore"):
+            again = np.asarray(call(coord, box))
+        if not np.array_equal(got, again, equal_nan=True):
+            return [(f"C15/{fn}/repeated-call-differs", f"{case['boxkind']} box, step {step} ({how})")]
+        seen.append((got.copy(), bb))
+    # second pass: the same values in fresh arrays
+    for step, (got, bb) in enumerate(seen):
+        with np.errstate(all="ignore"):
+            fresh = np.asarray(call(c0.copy(), bb.copy()))
+        if got.shape != fresh.shape or not np.array_equal(got, fresh, equal_nan=True):
+            dev = float(np.nanmax(np.abs(got.astype(float) - fresh.astype(float)))) if got.shape == fresh.shape else float("nan")
+            v.append((f"C15/{fn}/stale-result-after-in-place-change-of-box",
+                      f"{case['boxkind']} box changed in place ({' -> '.join(history[:step + 1])}): the result with the SAME array object differs "
+                      f"from the result with a fresh copy of equal values by up to {dev:.4g}"))
+            break
+    return v
+
+
 def _o_pmeasure(case):
     """distance / angle / dihedral WITH a box == the non-periodic value on the unwrapped chain, and unchanged when any
     single atom is wrapped by a further lattice vector; index variants (periodic=True) == coordinate variants"""
@@ -1846,6 +1992,30 @@ def _o_unitcell(case):
     if bad:
         key = K_UNITCELL_SNAP if _snapped(lens, angs) else "C15/unitcell_from_vectors/not-inverse-of-vectors_from_unitcell"
         v.append((key, f"cell {lens} {angs}: " + "; ".join(bad)))
+    # ---- lengths and angles do not depend on the orientation of the box: rotate it as a whole (exact rational rotation,
+    # then rounded to float32), permute / mirror the coordinate axes, and compare with plain norm / arccos of dot products
+    import random as _random
+    r_ = _random.Random(case.get("seed", 0))
+    Rq = np.array([[float(x) for x in row] for row in _quat_rotation(r_)])
+    perm = np.eye(3)[:, r_.choice([[1, 0, 2], [2, 1, 0], [0, 2, 1], [1, 2, 0], [2, 0, 1]])]
+    mirror = np.diag([r_.choice([-1.0, 1.0]), r_.choice([-1.0, 1.0]), -1.0])
+    for label, T in (("rotated", Rq), ("axes-permuted", perm), ("mirrored", mirror), ("rotated+mirrored", Rq @ mirror)):
+        tb = (bx @ T.T).astype(np.float32)
+        got = [float(x) for x in struc.unitcell_from_vectors(tb)]
+        t64 = tb.astype(np.float64)
+        nn = [float(np.linalg.norm(t64[i])) for i in range(3)]
+        want = nn + [math.acos(max(-1.0, min(1.0, float(t64[i] @ t64[j]) / (nn[i] * nn[j])))) for i, j in ((1, 2), (0, 2), (0, 1))]
+        bad = []
+        for i in range(3):
+            if abs(got[i] - want[i]) > 64 * eps * want[i]:
+                bad.append(f"length {i}: {got[i]!r}, norm of the vector {want[i]!r}")
+            if abs(got[3 + i] - want[3 + i]) > 64 * eps / math.sqrt(vol2) + snap:
+                bad.append(f"angle {i}: {math.degrees(got[3 + i])!r} deg, arccos of the dot product {math.degrees(want[3 + i])!r} deg")
+            if abs(got[3 + i] - rad[i]) > 192 * eps / math.sqrt(vol2) + 2 * snap:
+                bad.append(f"angle {i}: {math.degrees(got[3 + i])!r} deg, cell before the {label} transformation {angs[i]!r} deg")
+        if bad and not _snapped(lens, angs):
+            v.append((f"C15/unitcell_from_vectors/depends-on-box-orientation/{label}", f"cell {lens} {angs}, box {tb.tolist()}: " + "; ".join(bad[:3])))
+            break
     # ---- and the other way round: vectors -> cell -> vectors, every row judged relative to its own length
     box2 = np.asarray(struc.vectors_from_unitcell(*[float(x) for x in back]), dtype=np.float64)
     for i in range(3):
